@@ -701,14 +701,18 @@ func redactScalarValue(keyPath []string, v interface{}, isSearchStage bool, isSe
 		return v
 	}
 	parentKey = keyPath[len(keyPath)-1]
-	switch parentKey {
-	case "$date":
-		return redactString(v.(string), RedactedISODate)
-	case "$oid":
-		return redactString(v.(string), RedactedObjectId)
-	case "base64":
-		if grandParentKey == "$binary" {
-			return redactString(v.(string), RedactedUUID)
+	// The extended-JSON wrappers normally hold strings; any other kind (number, boolean,
+	// null) falls through to the generic handling below instead of panicking.
+	if str, isStr := v.(string); isStr {
+		switch parentKey {
+		case "$date":
+			return redactString(str, RedactedISODate)
+		case "$oid":
+			return redactString(str, RedactedObjectId)
+		case "base64":
+			if grandParentKey == "$binary" {
+				return redactString(str, RedactedUUID)
+			}
 		}
 	}
 	switch v.(type) {
